@@ -72,11 +72,11 @@ fcp_parser = Lark(
     struct: "struct" identifier "{" struct_field+ "}"
     struct_field: identifier "@" number ":" type "|"? param* ","
     type: (unsigned_type | signed_type | float_type | double_type | str_type | array_type | composed_type | dynamic_array_type | optional_type)
-    str_type: "str"
-    unsigned_type: "u" (DIGIT | DIGIT DIGIT)
-    signed_type: "i" (DIGIT | DIGIT DIGIT)
-    float_type: "f32"
-    double_type: "f64"
+    str_type: /str(?![A-Za-z0-9_])/
+    unsigned_type: "u" WIDTH
+    signed_type: "i" WIDTH
+    float_type: /f32(?![A-Za-z0-9_])/
+    double_type: /f64(?![A-Za-z0-9_])/
     array_type: "[" type "," number "]"
     dynamic_array_type: "[" type "]"
     composed_type: identifier
@@ -106,6 +106,9 @@ fcp_parser = Lark(
     array: "[" value ("," value)* "]"
 
     COMMENT: C_COMMENT | CPP_COMMENT
+
+    // a builtin type name ends where an identifier would end: "u8x" is an identifier
+    WIDTH: /[0-9]{1,2}(?![A-Za-z0-9_])/
 
     UNDERSCORE : "_"
     DOT : "."
